@@ -3,6 +3,56 @@
    alloy-rlp, fastrlp; B: SCALE, SSZ, borsh, DER; C: num-bigint, primitive-types, bytemuck,
    postgres, ark-ff).  Only pinned statements, `exact`, Print Assumptions. *)
 
+(* ======================= C17A.part ======================= *)
+(* Properties/C17.v — Decoders are total on untrusted input: no panic, no out-of-range value.
+   TEMPORARY (part A only): the integrator merges the parts.  Only pinned statements, `exact`,
+   and Print Assumptions live here. *)
+From Coq Require Import ZArith List Bool.
+From RV.Model Require Import Base Word Bytes BaseConv CodecA.
+From RV.Spec Require Import FmtA.
+From RV.Run Require RunC17A.
+From RV.Proofs Require PfCodecA PfC17A.
+Import ListNotations.
+Local Open Scope Z_scope.
+
+(* Group A: for every width 0 <= BITS < 2^64 and every input byte string / text / u64 / u128, each
+   decoder of rlp (Uint, Bits), alloy-rlp, fastrlp 0.3/0.4, serde_json, bincode returns Ok or Err
+   (never panics); Ok(v): v canonical and denoted by the input under Spec/FmtA's grammar, and for
+   alloy-rlp / fastrlp the consumed prefix is exactly the reference encoding of v; Err: the input is
+   not the reference encoding of an in-range value. *)
+Theorem C17A_holds : forall c : RunC17A.call, RunC17A.wf c -> RunC17A.spec c (RunC17A.run c) = true.
+Proof. exact PfC17A.C17A_all. Qed.
+Check C17A_holds : forall c : RunC17A.call, RunC17A.wf c -> RunC17A.spec c (RunC17A.run c) = true.
+Print Assumptions C17A_holds.
+
+(* alloy-rlp (and fastrlp, by fastrlp_decode_eq): accepted input = reference encoding ++ rest *)
+Theorem C17A_alloy_accepts_iff : forall bits inp l m, RunC17A.okbits bits -> Forall isbyte inp ->
+  (CodecA.alloy_rlp_decode bits inp = Val (Ok (l, m))
+   <-> canon bits l /\ m = lenZ (rlp_uint (eval l)) /\ exists rest, inp = rlp_uint (eval l) ++ rest).
+Proof. exact PfC17A.alloy_rlp_accepts_iff. Qed.
+Check C17A_alloy_accepts_iff : forall bits inp l m, RunC17A.okbits bits -> Forall isbyte inp ->
+  (CodecA.alloy_rlp_decode bits inp = Val (Ok (l, m))
+   <-> canon bits l /\ m = lenZ (rlp_uint (eval l)) /\ exists rest, inp = rlp_uint (eval l) ++ rest).
+Print Assumptions C17A_alloy_accepts_iff.
+
+Theorem C17A_fastrlp_eq : forall bits inp, Forall isbyte inp ->
+  CodecA.fastrlp_decode bits inp = CodecA.alloy_rlp_decode bits inp.
+Proof. exact PfCodecA.fastrlp_decode_eq. Qed.
+Check C17A_fastrlp_eq : forall bits inp, Forall isbyte inp ->
+  CodecA.fastrlp_decode bits inp = CodecA.alloy_rlp_decode bits inp.
+Print Assumptions C17A_fastrlp_eq.
+
+(* non-vacuity: a list (F19 regression), leading zero, non-canonical single byte, long form for a short string, excess
+   high bits at a width with BYTES % 8 = 0 and BITS % 64 <> 0 are errors; a valid one is accepted *)
+Example C17A_nonvacuous :
+  RunC17A.run (RunC17A.rlp_decode 64 [193; 5]) = Val [TErr 4]
+  /\ RunC17A.run (RunC17A.alloy_rlp_decode 256 [130; 0; 0]) = Val [TErr 2]
+  /\ RunC17A.run (RunC17A.alloy_rlp_decode 256 [129; 127]) = Val [TErr 4]
+  /\ RunC17A.run (RunC17A.fastrlp04_decode 256 [184; 1; 200]) = Val [TErr 5]
+  /\ RunC17A.run (RunC17A.alloy_rlp_decode 60 [136; 255; 255; 255; 255; 255; 255; 255; 255]) = Val [TErr 1]
+  /\ RunC17A.run (RunC17A.alloy_rlp_decode 256 [130; 4; 0; 9]) = Val [TL [1024; 0; 0; 0]; TZ 3].
+Proof. vm_compute. repeat split. Qed.
+
 (* ======================= C17B.part ======================= *)
 (* Properties/C17.v — Decoders are total on untrusted input: no panic, no out-of-range value.
    TEMPORARY umbrella holding only group B (SCALE plain + compact, SSZ, borsh, DER); the
